@@ -69,7 +69,8 @@ def r1(run: Run, src):
 
 def r2(run: Run, src, cg):
     lib = library_exceptions(src)
-    fi = src.func('Parser._translate')
+    from .common import inlined_function
+    fi = inlined_function(src, 'Parser._translate')
     fn = fi.node
     parents = parent_map(fn)
     gates = [n for n in ast.walk(fn) if isinstance(n, ast.Call) and isinstance(n.func, ast.Attribute) and n.func.attr == 'is_safe']
